@@ -1,6 +1,6 @@
 (* C10 — defaults and triggered calculations are applied exactly once.
    Only statements closed by exact, with Print Assumptions beneath each. *)
-Require Import PX.Base.Str PX.Model.Warnings PX.Model.Tree PX.Proofs.Tree PX.Gen.Defaults PX.Model.Defaults PX.Proofs.Defaults.
+Require Import PX.Base.Str PX.Model.Warnings PX.Model.Tree PX.Proofs.Tree PX.Gen.Defaults PX.Model.Defaults PX.Proofs.Defaults PX.Gen.Lexer PX.Model.Scanner PX.Proofs.Scanner PX.Proofs.PinsScanner.
 From Coq Require Import Permutation.
 
 (* every node of a question in the primary instance, repeat templates included, holds the static default of THAT question
@@ -57,6 +57,24 @@ Theorem C10_classifier : forall ts,
   dyn_tokens false ts = false <-> Forall (fun t => mem (fst t) DYNAMIC_TOKEN_NAMES = false) ts.
 Proof. exact dyn_tokens_false_false. Qed.
 Print Assumptions C10_classifier.
+(* the scanner itself (re.Scanner over LEXER_RULES), modelled rule by rule in Model/Scanner.v: on EVERY text it consumes the whole
+   text (the remainder is empty) and the token texts concatenate back to the text, so no character of a default is lost or
+   invented before the static/dynamic decision; every token is non-empty and carries one of the 26 rule names *)
+Theorem C10_scanner_total_and_lossless : forall s, snd (scan s) = [] /\ concat (map snd (fst (scan s))) = s.
+Proof. exact scan_consumes_everything. Qed.
+Print Assumptions C10_scanner_total_and_lossless.
+Theorem C10_scanner_tokens : forall s t, In t (tokens s) -> In (fst t) LEXER_RULE_ORDER /\ snd t <> [].
+Proof. exact tokens_named_nonempty. Qed.
+Print Assumptions C10_scanner_tokens.
+(* the decision on the raw default text, through the modelled scanner *)
+Theorem C10_text_classifier : forall d ty, mem ty HYPHEN_TYPES = false ->
+  (default_is_dynamic tokens d ty = false <-> d = [] \/ Forall (fun t => mem (fst t) DYNAMIC_TOKEN_NAMES = false) (tokens d)).
+Proof. exact text_classifier. Qed.
+Print Assumptions C10_text_classifier.
+(* the 26 patterns and their order are the ones the model was written from (regenerated from /repo on every run) *)
+Theorem C10_scanner_patterns_pinned : patterns_as_modelled.
+Proof. exact scanner_patterns_pinned. Qed.
+Print Assumptions C10_scanner_patterns_pinned.
 Theorem C10_source_constants :
   DYNAMIC_TOKEN_NAMES = doc_dynamic_tokens /\ EVENT_FIRST_LOAD = doc_event_first_load /\
   EVENT_FIRST_LOAD ++ EVENT_NEW_REPEAT_SUFFIX = doc_event_new_repeat /\
